@@ -26,6 +26,9 @@ pub struct ChurnGen {
     pending: Vec<usize>,
     pub cycles_started: u64,
     max_group: usize,
+    /// Hand-overs: one churn history in three goes on, every so many calls, with a reloaded image
+    /// (checkpoint + restore) or with a clone of the graph.
+    checkpoint_every: Option<usize>,
 }
 
 impl ChurnGen {
@@ -38,6 +41,7 @@ impl ChurnGen {
         let room = MAX_GROUPS - long_lived;
         let max_inflight = rng.range(1, 3).min(room).max(1);
         let max_group = *rng.pick(&[2usize, 2, 3, 4, 6, 16]);
+        let checkpoint_every = if rng.chance(1, 3) { Some(rng.range(15, 150)) } else { None };
         Self {
             rng,
             labels,
@@ -48,6 +52,7 @@ impl ChurnGen {
             pending: vec![],
             cycles_started: 0,
             max_group,
+            checkpoint_every,
         }
     }
 
@@ -174,6 +179,11 @@ impl ChurnGen {
             }
             if self.inflight.is_empty() {
                 return None;
+            }
+            if let Some(k) = self.checkpoint_every {
+                if self.rng.chance(1, k) {
+                    return Some(if self.rng.chance(2, 3) { Op::SaveLoad { swap: true } } else { Op::Clone { swap: true } });
+                }
             }
             // occasional allocator use
             if self.rng.chance(1, 40) && m.peek_next_id().is_some() {
